@@ -100,5 +100,15 @@ structure QueueWorld (ω : Type) where
   sockSendTo : Int → M ω Int
   /-- `buff->sock->DriverPending()` (TLS handshake hook) -/
   sockDriverPending : M ω Unit
+  /-- `q.emplace(std::move(promise), std::forward<Args>(args)...)`: the new element goes to the back -/
+  qEmplace : M ω Unit
+  /-- `std::lock_guard<std::mutex> lock(sendQMtx)` -/
+  lock : M ω Unit
+  /-- the guard's destructor on a normal exit of the function -/
+  unlock : M ω Unit
+  /-- `driver.lock()`: is the driver still alive -/
+  driverLock : M ω Bool
+  /-- `ptr->AsyncWantSend(buff->sock->fd)` -/
+  driverAsyncWantSend : M ω Unit
 
 end SockModel.Gen
